@@ -40,6 +40,8 @@ SCENARIOS = [
      "out/p.md": "p", "docs/d.md": "d"},
     {".gitignore": "\\#hash.md\n\\!bang.md\nnotes\\[1\\].md\nfile\\?.md\n", "#hash.md": "h", "!bang.md": "b", "notes[1].md": "n", "notes1.md": "n1",
      "file?.md": "q", "filex.md": "x", "sub/#hash.md": "sh"},
+    # lines that are no valid pattern (a lone '!', a trailing backslash) are skipped, the other rules apply
+    {".gitignore": "!\nb.md\na.md\\\n", "a.md": "a", "b.md": "b", "sub/.gitignore": "\\\n!\n", "sub/c.md": "c", "sub/b.md": "b2"},
 ]
 
 
@@ -129,7 +131,7 @@ def bounded(tier, seed):
         finally:
             shutil.rmtree(base, ignore_errors=True)
     return {"evaluations": evals, "distinct_nontrivial": len(distinct), "violations": viol, "samples": samples,
-            "rule": "(also, on the scenarios and every 10th tree: `--list-files` through cli.main started inside the tree, in its parent (no repository) and in / gives the same listing; after the .gitignore files are replaced a NEW resolver in the same process agrees with git again) 15 hand-written scenarios (incl. comment / '#' / escape / leading-blank handling of ignore lines, negation-only nested files, rules repeated around a negation, backslash escapes) (ignored directories with later / nested negations, anchored and multi-segment patterns in "
+            "rule": "(also, on the scenarios and every 10th tree: `--list-files` through cli.main started inside the tree, in its parent (no repository) and in / gives the same listing; after the .gitignore files are replaced a NEW resolver in the same process agrees with git again) 16 hand-written scenarios (incl. comment / '#' / escape / leading-blank handling of ignore lines, negation-only nested files, rules repeated around a negation, backslash escapes) (ignored directories with later / nested negations, anchored and multi-segment patterns in "
                     "nested files, re-included directories) + seeded trees with .gitignore files (1-3 lines each from an 18-line pool) at any level: the .md files returned by a "
                     "traversal (no default excludes) equal the .md files of `git ls-files -co --exclude-standard`; the same for two overlapping traversal roots (tree and one sub-directory, both orders: each judged from its own root); with "
                     "respect_gitignore=False every .md file is returned; distinct = distinct git results",
@@ -171,3 +173,18 @@ def static_obligations(tier):
                      "status": "discharged" if not glob else "refuted",
                      "src": "no module-level dict / list / set (a process-wide cache) in %s" % name, "detail": repr(glob)})
     return recs
+
+
+def witnesses():
+    """recorded finding C18-negation-reaches-below-a-matched-directory, replayed against git"""
+    from flowmark.file_resolver import FileResolver, FileResolverConfig
+    base = scratch_dir("vf-c18w-")
+    root = os.path.join(base, "t")
+    try:
+        os.makedirs(root)
+        _scenario_tree(root, {".gitignore": "a*\n!docs*\n", "docs/a.md": "x", "b.md": "b"})
+        vis = [p for p in fsgen.git_visible(root) if p.endswith(".md")]
+        got = sorted(os.path.relpath(str(p), os.path.realpath(root)) for p in FileResolver(FileResolverConfig(exclude=[])).resolve([root]))
+        return {"C18-negation-reaches-below-a-matched-directory": got != vis and "docs/a.md" in got and "docs/a.md" not in vis}
+    finally:
+        shutil.rmtree(base, ignore_errors=True)
